@@ -419,6 +419,22 @@ def c11_7(R):
                    "after writing an extension the chain pointer is set to offset%s but this block's next-extension byte is at offset%s: the next extension's id overwrites the previous block's %s, "
                    "so a header carrying two extensions is not parsed back (length and payload boundary shift)" % ("%+d" % k if k is not None else "?", ",".join("%+d" % x for x in sorted(tk)), "length byte" if k == 1 else "bytes"),
                    where=d.where(), instance="chain-pointer=terminator-position")
+    # ... and the running offset must still have the value the terminator was stored at: no advance of `offset` between this block's terminator store and the pointer update
+    adv = [d for d in b.all_defs(off) if isinstance(d, Stmt) and not (d.rv.kind == "use" and d.rv.ops[0].kind == "const")]
+    R.floor("advances of the running offset", len(adv), 2)
+    for d in updates:
+        before = [s for s, il in terms if s.place.proj and point_reaches(b, s, d) and b.unique_def(il) is not None and int_affine(b, b.unique_def(il).rv.ops[0])[0].kind == "multi" and int_affine(b, b.unique_def(il).rv.ops[0])[0].root[1] == off]
+        nearest = [s for s in before if not any(o is not s and point_reaches(b, s, o) for o in before)]
+        if not nearest:
+            R.fail([SER, "next_ext_pos", "no-terminator-before-update"], "the chain pointer is updated where no terminator store of this block precedes it", where=d.where(), instance="chain-pointer-same-offset")
+            continue
+        moved = [a for a in adv for s in nearest if point_reaches(b, s, a) and point_reaches(b, a, d)]
+        if moved:
+            R.fail([SER, "next_ext_pos", "offset-advanced-before-pointer-update"],
+                   "the running offset is advanced between storing this block's NO_NEXT_EXT terminator and recording its position in the chain pointer: next_ext_pos then names the byte after this block, "
+                   "the next extension's id is written over the next block's own terminator position and the chain ends early (second extension lost, its bytes parsed as payload)", where=moved[0].where(), instance="chain-pointer-same-offset")
+        else:
+            R.ok("chain-pointer-same-offset", b.name, "no advance of the offset between the terminator store and next_ext_pos = offset (%s)" % d.where())
     # the three positions in the parser
     d_ = R.body(DES)
     pos = {}
